@@ -1879,6 +1879,106 @@ func ruleC14(w *World) {
 		}
 		w.check(bad == "", "C14.R5", fnKey(sf)+"/fresh-result", sf.Pos(), "the stored state is memory of this call", "Store returns memory that is "+bad+": the state handed out shares storage with the generator (or with another stored state), so it changes when the generator moves on")
 	}
+	// R6: one core per generator: the object the sampling methods read from (the interface stored in the embedded PRG)
+	// and the object Store serialises (the `core` field) are the same object in every constructor — with two copies the
+	// stored counter freezes while the stream advances, and a second-generation restore replays bytes
+	w.floor("C14.R6", 2)
+	{
+		var prgT, cT *types.Named
+		if p := w.ByPath[randomPath]; p != nil {
+			if tn, ok := p.Types.Scope().Lookup("chachaPRG").(*types.TypeName); ok {
+				prgT, _ = tn.Type().(*types.Named)
+			}
+			if tn, ok := p.Types.Scope().Lookup("chachaCore").(*types.TypeName); ok {
+				cT, _ = tn.Type().(*types.Named)
+			}
+		}
+		if prgT == nil || cT == nil {
+			w.undecided("C14.R6", "anchor:chachaPRG", token.NoPos, "unresolved anchor: generator / core types")
+		} else {
+			for _, fn := range w.srcFuncs(randomPath) {
+				if isTestFile(w, fn.Pos()) {
+					continue
+				}
+				instrsFlat(fn, func(ins ssa.Instruction) {
+					al, ok := ins.(*ssa.Alloc)
+					if !ok || !types.Identical(deref(al.Type()), prgT) {
+						return
+					}
+					var coreVal, ifaceVal ssa.Value
+					var coreIsPtr bool
+					var coreAddr *ssa.FieldAddr
+					var visit func(base ssa.Value, depth int)
+					visit = func(base ssa.Value, depth int) {
+						if depth > 2 {
+							return
+						}
+						for _, r := range *base.Referrers() {
+							fa, ok := r.(*ssa.FieldAddr)
+							if !ok || fa.X != base {
+								continue
+							}
+							fld := fieldOf(fa)
+							if fld == nil {
+								continue
+							}
+							ft := fld.Type()
+							switch {
+							case types.Identical(deref(ft), cT):
+								_, coreIsPtr = ft.Underlying().(*types.Pointer)
+								coreAddr = fa
+								for _, r2 := range *fa.Referrers() {
+									if st, ok := r2.(*ssa.Store); ok && st.Addr == fa {
+										coreVal = st.Val
+									}
+								}
+							case types.IsInterface(ft):
+								for _, r2 := range *fa.Referrers() {
+									if st, ok := r2.(*ssa.Store); ok && st.Addr == fa {
+										ifaceVal = st.Val
+									}
+								}
+							default:
+								if _, isStruct := ft.Underlying().(*types.Struct); isStruct && fld.Embedded() {
+									visit(fa, depth+1)
+									// a nested composite literal is built in a local and stored as a whole
+									for _, r2 := range *fa.Referrers() {
+										if st, ok := r2.(*ssa.Store); ok && st.Addr == fa {
+											if ld, ok := st.Val.(*ssa.UnOp); ok && ld.Op == token.MUL {
+												if la, ok := ld.X.(*ssa.Alloc); ok {
+													visit(la, depth+1)
+												}
+											}
+										}
+									}
+								}
+							}
+						}
+					}
+					visit(al, 0)
+					key := fnKey(fn) + "/one-core"
+					if ifaceVal == nil {
+						return // not a constructor (no source installed here)
+					}
+					src := ifaceVal
+					if mi, ok := src.(*ssa.MakeInterface); ok {
+						src = mi.X
+					}
+					okk, why := false, ""
+					switch {
+					case coreIsPtr:
+						okk = coreVal != nil && stripConv(coreVal) == stripConv(src)
+						why = fmt.Sprintf("the sampling source is `%s`, the stored core `%s`", render(src), render(coreVal))
+					default:
+						// the core is held by value: the source must be the address of that very field
+						okk = coreAddr != nil && stripConv(src) == ssa.Value(coreAddr)
+						why = fmt.Sprintf("the core is held by value (a copy of `%s`) while the sampling source is `%s`, another object", render(coreVal), render(src))
+					}
+					w.check(okk, "C14.R6", key, al.Pos(), "sampling source and stored core are one object", fn.Name()+" builds a generator with two cores: "+why+" — Read advances one, Store serialises the other, so a state stored after output was drawn carries a stale counter and the restored generator replays bytes")
+				})
+			}
+		}
+	}
 	// R3 Read
 	var coreT *types.Named
 	if p := w.ByPath[randomPath]; p != nil {
@@ -2152,6 +2252,27 @@ func ruleC15(w *World) {
 	w.floor("C15.R1", 4)
 	w.floor("C15.R2", 4)
 	w.floor("C15.R3", 4)
+	// R6: equal (seed, customizer) byte strings give equal generators: the constructors only read their arguments. An
+	// append onto an argument writes into the caller's array whenever it has spare capacity (which can overlap the other
+	// argument: a parsed record tag‖seed), a copy into it or an element store changes it outright
+	w.floor("C15.R6", 2)
+	{
+		ea := w.effects()
+		for _, name := range []string{"NewChacha20PRG", "RestoreChacha20PRG"} {
+			fn := w.fn(randomPath, name)
+			if fn == nil {
+				w.undecided("C15.R6", "anchor:"+name, token.NoPos, "unresolved anchor")
+				continue
+			}
+			bad, at := w.argumentWrite(ea, fn)
+			w.check(bad == "", "C15.R6", fnKey(fn)+"/arguments-read-only", func() token.Pos {
+				if bad != "" {
+					return at
+				}
+				return fn.Pos()
+			}(), "seed and customizer are only read", name+": "+bad+" — two calls with equal seed / customizer bytes can key different generators, and the caller's buffers change under it")
+		}
+	}
 	// R5: the byte source under the helpers: one keystream XOR of zeros per Read, counted in full (= C14.R3) — the
 	// samples of two generators in the same state are equal only if Read consumes and accounts the same bytes
 	w.floor("C15.R5", 3)
@@ -2874,4 +2995,87 @@ func (w *World) spongeRole(role string) string {
 		}
 	}
 	return role
+}
+
+// argumentWrite: the first construct of fn (its own body) that may write memory reachable from one of its slice /
+// pointer arguments: an append onto an argument (writes the caller's array when it has spare capacity; a three-index
+// slice x[:n:n] is exempt), a copy / clear into it, a store through it. "" if none.
+func (w *World) argumentWrite(ea *effAnalysis, fn *ssa.Function) (string, token.Pos) {
+	paramRooted := func(v ssa.Value) string {
+		for _, r := range ea.roots(v, fn, 0) {
+			if r.kind == rkParam && r.param > 0 || r.kind == rkParam && fn.Signature.Recv() == nil {
+				return r.name
+			}
+		}
+		return ""
+	}
+	bad := ""
+	var at token.Pos
+	instrsFlat(fn, func(ins ssa.Instruction) {
+		if bad != "" {
+			return
+		}
+		switch x := ins.(type) {
+		case *ssa.Call:
+			if b, ok := x.Call.Value.(*ssa.Builtin); ok {
+				switch b.Name() {
+				case "append":
+					if p := paramRooted(x.Call.Args[0]); p != "" {
+						if sl, ok := stripConv(x.Call.Args[0]).(*ssa.Slice); ok && sl.Max != nil {
+							return
+						}
+						bad, at = "append onto the argument `"+p+"` (writes the caller's array when it has spare capacity)", x.Pos()
+					}
+				case "copy", "clear":
+					if p := paramRooted(x.Call.Args[0]); p != "" {
+						bad, at = b.Name()+" into the argument `"+p+"`", x.Pos()
+					}
+				}
+			} else if h := x.Call.StaticCallee(); h != nil && inModule(h) && h.Blocks != nil {
+				// an appending helper of the module (`appendX(dst, …)` whose body appends onto its first parameter)
+				for i, a := range x.Call.Args {
+					if p := paramRooted(a); p != "" && i < len(h.Params) {
+						if hb, _ := w.argumentWriteParam(ea, h, i); hb != "" {
+							bad, at = "passes the argument `"+p+"` to "+h.Name()+", which does an "+hb, x.Pos()
+						}
+					}
+				}
+			}
+		case *ssa.Store:
+			if _, isAlloc := x.Addr.(*ssa.Alloc); isAlloc {
+				return
+			}
+			if p := paramRooted(x.Addr); p != "" {
+				bad, at = "store through the argument `"+p+"`", x.Pos()
+			}
+		}
+	})
+	return bad, at
+}
+
+// argumentWriteParam: as argumentWrite, restricted to writes rooted at parameter idx of the (helper) function.
+func (w *World) argumentWriteParam(ea *effAnalysis, fn *ssa.Function, idx int) (string, token.Pos) {
+	bad := ""
+	var at token.Pos
+	rooted := func(v ssa.Value) bool {
+		for _, r := range ea.roots(v, fn, 0) {
+			if r.kind == rkParam && r.param == idx {
+				return true
+			}
+		}
+		return false
+	}
+	instrsFlat(fn, func(ins ssa.Instruction) {
+		switch x := ins.(type) {
+		case *ssa.Call:
+			if b, ok := x.Call.Value.(*ssa.Builtin); ok && (b.Name() == "append" || b.Name() == "copy" || b.Name() == "clear") && rooted(x.Call.Args[0]) {
+				bad, at = b.Name()+" onto it", x.Pos()
+			}
+		case *ssa.Store:
+			if _, isAlloc := x.Addr.(*ssa.Alloc); !isAlloc && rooted(x.Addr) {
+				bad, at = "store through it", x.Pos()
+			}
+		}
+	})
+	return bad, at
 }
